@@ -325,6 +325,9 @@ func (h *FBDNSDB) WatchControlDirAndReload() error {
 // Load loads a DB file
 func (h *FBDNSDB) Load() (err error) {
 	var dnsdb *db.DB
+	// NewFBDNSDB has already armed the reload goroutines
+	h.reloadMu.Lock()
+	defer h.reloadMu.Unlock()
 	glog.Infof("Loading %s using %s driver", h.dbConfig.Path, h.dbConfig.Driver)
 	if dnsdb, err = db.Open(h.dbConfig.Path, h.dbConfig.Driver); err != nil {
 		return err
@@ -341,6 +344,10 @@ func (h *FBDNSDB) Reload(s ReloadSignal) (err error) {
 
 	h.reloadMu.Lock()
 	defer h.reloadMu.Unlock()
+
+	if h.dnsdb == nil {
+		return fmt.Errorf("Asked for reload but no DB is loaded yet")
+	}
 
 	switch s.Kind {
 	case FullReload:
